@@ -16,8 +16,10 @@ func (Scenario) Generate(rng *rand.Rand, focus, tier string) kernel.Plan {
 		"vest_pool": rng.Int63n(64),
 	}
 	w := map[string]int{"regcoin": 8, "addcoin": 6, "regerc20": 6, "toggle": 4, "upderc20": 3, "param": 4, "convcoin": 16, "converc": 14,
-		"suicide": 1, "block": 24, "advance": 10, "crash": 2, "export": 1, "stake": 0, "regcoin2": 2}
+		"suicide": 1, "block": 24, "advance": 10, "crash": 2, "export": 1, "stake": 0, "regcoin2": 2, "liemode": 1}
 	switch focus {
+	case "C11":
+		w["liemode"], w["convcoin"], w["converc"] = 4, 20, 18
 	case "C12":
 		w["regcoin"], w["addcoin"], w["upderc20"], w["toggle"], w["suicide"] = 10, 10, 6, 5, 3
 	case "C20":
@@ -29,7 +31,7 @@ func (Scenario) Generate(rng *rand.Rand, focus, tier string) kernel.Plan {
 	case "C13":
 		w["export"] = 5
 	}
-	order := []string{"regcoin", "addcoin", "regerc20", "toggle", "upderc20", "param", "convcoin", "converc", "suicide", "block", "advance", "crash", "export", "stake", "regcoin2"}
+	order := []string{"regcoin", "addcoin", "regerc20", "toggle", "upderc20", "param", "convcoin", "converc", "suicide", "block", "advance", "crash", "export", "stake", "regcoin2", "liemode"}
 	total := 0
 	for _, k := range order {
 		total += w[k]
@@ -38,7 +40,11 @@ func (Scenario) Generate(rng *rand.Rand, focus, tier string) kernel.Plan {
 	add := func(k string, a ...int64) { ops = append(ops, kernel.Op{K: k, A: a}) }
 	// a productive prefix: register something early so that conversions have pairs to work on
 	add("regcoin", rng.Int63n(4), rng.Int63n(8))
-	add("regerc20", rng.Int63n(3))
+	if focus == "C11" && kernel.Chance(rng, 0.5) {
+		add("regerc20", 4) // the false-returning token
+	} else {
+		add("regerc20", rng.Int63n(3))
+	}
 	add("block", 4, 0)
 	add("advance", 25)
 	add("block", 4, 0)
@@ -74,8 +80,10 @@ func (Scenario) Generate(rng *rand.Rand, focus, tier string) kernel.Plan {
 			add("regcoin2", rng.Int63n(4), rng.Int63n(8), rng.Int63n(8))
 		case "addcoin":
 			add("addcoin", rng.Int63n(4), rng.Int63n(8), rng.Int63n(6))
+		case "liemode":
+			add("liemode", rng.Int63n(3))
 		case "regerc20":
-			add("regerc20", rng.Int63n(4))
+			add("regerc20", rng.Int63n(5))
 		case "toggle":
 			add("toggle", rng.Int63n(6), rng.Int63n(6))
 		case "upderc20":
